@@ -96,6 +96,14 @@ func Wipes() {
 	out, err := s.Decrypt(env.Ctx, *rec)
 	vx.Assert("C10.warm_decrypt_ok", err == nil)
 	spy.checkWiped("C10.wiped_after_warm_decrypt", out)
+	// a record whose key part is intact but whose Data was tampered with: the DRK is unwrapped, the payload is not
+	bad := *env.CloneDRR(rec)
+	bad.Data = vx.Bytes("tampered", len(rec.Data))
+	out, err = s.Decrypt(env.Ctx, bad)
+	spy.checkWiped("C10.wiped_after_failed_payload_decrypt", out)
+	if err != nil {
+		vx.Reach("C10.payload_decrypt_failed")
+	}
 	// a fresh process: decrypt with cold caches unwraps SK (KMS), IK and DRK - under an allocator fault
 	f2 := mk()
 	s2, _ := f2.GetSession("p0")
